@@ -251,11 +251,13 @@ theorem window_model_is_1D_model {α : Type} [Transc α] (p : SnowIn α) (pvap :
           (Evap.vapourFlux v.kappa v.m_water p.const.k_B v.p_vac (pvap Ttop) Ttop Ttop) :=
   EvapLink.qEvap1D_eq p pvap t Ttop
 
-/-- **link, 2D**: column by column, the evaporative flux of the executable 2D model is `EvapWindow.qEWith` -/
+/-- **link, 2D**: column by column, the evaporative flux of the executable 2D model is `EvapWindow.qEWith`
+at the flux `EvapLink.flux2D` (the model's `vapour_flux` at the surface pressure of the stage) -/
 theorem window_model_is_2D_model {α : Type} [Transc α] (c : S2D.Ctx α) (solidStage : Bool) (time : α)
     (T : Array α) (j : Nat) :
-    ∃ Nw, S2D.qEvap c solidStage time T j =
-      qEWith (decide (c.p.config = S2D.Config.visf)) (EvapLink.ofPar c.p) time Nw :=
+    S2D.qEvap c solidStage time T j =
+      qEWith (decide (c.p.config = S2D.Config.visf)) (EvapLink.ofPar c.p) time
+        (EvapLink.flux2D c solidStage T j) :=
   EvapLink.qEvap2D_eq c solidStage time T j
 
 /-- the generated-flux `q_e` of the window theorems above is the same `qEWith` -/
@@ -311,6 +313,128 @@ theorem visf_cool1D_eq_shelf_before_window (p : SnowIn ℝ) (v : Visf ℝ) (hv :
     mul_le_mul_of_nonneg_left (by exact_mod_cast hin.le) hdt
   have h1' : v.t_vac_start * 3600 < g.dt * (i : ℝ) := by exact_mod_cast h1
   linarith
+
+/-- **real 1D model, sampled times**: if the vacuum window is met at none of the step times the loops
+evaluate (`dt·i`, and `dt·iEnd + dt·i` after a nucleation at step `iEnd`), the VISF run equals the shelf run —
+exception, statistics, every history row.  Covers a window lying beyond the process or between two samples. -/
+theorem visf_run1D_eq_shelf_sampled {α : Type} [Transc α] (p : SnowIn α) (Nz : Nat) (old : Bool) (shelf : List α)
+    (hcool : ∀ i, i < shelf.length → EvapLink.notMet p ((grid1D p Nz).dt * Num.ofNat' i))
+    (hsol : ∀ iEnd i, iEnd + i < shelf.length →
+      EvapLink.notMet p ((grid1D p Nz).dt * Num.ofNat' iEnd + (grid1D p Nz).dt * Num.ofNat' i)) :
+    run1DOn p Nz old shelf = run1DOn (EvapLink.shelfOf p) Nz old shelf :=
+  EvapLink.run1DOn_shelf_sampled p Nz old shelf hcool hsol
+
+/-- **real 1D model, window beyond the process**: if the last sampled time `dt·(n−1)` does not exceed the
+window start (`dt·n ≤ t_start·3600` suffices), the whole VISF run equals the shelf run. -/
+theorem visf_run1D_eq_shelf_window_beyond (p : SnowIn ℝ) (v : Visf ℝ) (hv : p.visf = some v) (Nz : ℕ) (old : Bool)
+    (shelf : List ℝ) (hdt : 0 ≤ (grid1D p Nz).dt)
+    (hn : (grid1D p Nz).dt * shelf.length ≤ v.t_vac_start * 3600) :
+    run1DOn p Nz old shelf = run1DOn (EvapLink.shelfOf p) Nz old shelf := by
+  have key : ∀ k : ℕ, k < shelf.length → ∀ t : ℝ, t = (grid1D p Nz).dt * (k : ℝ) → EvapLink.notMet p t := by
+    intro k hk t ht v' hv' ⟨h1, _⟩
+    rw [hv] at hv'; cases hv'
+    have h1' : v.t_vac_start * 3600 < t := by exact_mod_cast h1
+    have : (grid1D p Nz).dt * (k : ℝ) ≤ (grid1D p Nz).dt * (shelf.length : ℝ) :=
+      mul_le_mul_of_nonneg_left (by exact_mod_cast hk.le) hdt
+    linarith
+  apply EvapLink.run1DOn_shelf_sampled
+  · intro i hi
+    exact key i hi _ (by simp)
+  · intro iEnd i hi
+    refine key (iEnd + i) hi _ ?_
+    simp only [ofNat'_real]; push_cast; ring
+
+/-! ### the flux laws for ANY positive value of π (the run models' own `vapour_flux`)
+
+`Gen.FU.N_w` is the formula-mode extraction of `utils.vapour_flux` with `np.pi` a parameter; the 0D/1D model's
+`Evap.vapourFlux` is it at `np_pi = Evap.piDouble`, the 2D model's `Evap2D.vapourFlux π` at the input `π`
+(GenTie/Evap.lean, `rfl`, every numeric instance), and `Gen.vapour_flux` at `Real.pi` (`flux_gen_eq`). -/
+
+theorem fluxN_zero_at_equilibrium (π κ m kB p T : ℝ) :
+    Gen.FU.N_w (kappa := κ) (m_water := m) (np_pi := π) (k_B := kB) (p_vap := p) (T_l := T) (p_vac := p) (T_v := T)
+      = 0 := by
+  rw [fluxN_eq]; ring
+
+theorem fluxN_pos_iff {π κ m kB pvac pvap T : ℝ} (hπ : 0 < π) (hκ : 0 < κ) (hκ1 : κ ≤ 1) (hm : 0 < m)
+    (hk : 0 < kB) (hT : 0 < T) :
+    0 < Gen.FU.N_w (kappa := κ) (m_water := m) (np_pi := π) (k_B := kB) (p_vap := pvap) (T_l := T) (p_vac := pvac)
+      (T_v := T) ↔ pvac < pvap := by
+  rw [fluxN_same_T]
+  have hC := fluxCoefPi_pos hπ hκ hκ1 hm hk
+  have hs : 0 < Real.sqrt T := Real.sqrt_pos.mpr hT
+  rw [mul_pos_iff_of_pos_left hC, div_pos_iff_of_pos_right hs, sub_pos]
+
+theorem fluxN_mono_pvap {π κ m kB pvac Tl Tv : ℝ} (hπ : 0 < π) (hκ : 0 < κ) (hκ1 : κ ≤ 1) (hm : 0 < m)
+    (hk : 0 < kB) (hT : 0 < Tl) :
+    StrictMono fun pvap => Gen.FU.N_w (kappa := κ) (m_water := m) (np_pi := π) (k_B := kB) (p_vap := pvap)
+      (T_l := Tl) (p_vac := pvac) (T_v := Tv) := by
+  intro p1 p2 h
+  simp only [fluxN_eq]
+  have hC := fluxCoefPi_pos hπ hκ hκ1 hm hk
+  unfold fluxCoefPi at hC
+  have hs : 0 < Real.sqrt Tl := Real.sqrt_pos.mpr hT
+  have : p1 / Real.sqrt Tl < p2 / Real.sqrt Tl := div_lt_div_of_pos_right h hs
+  apply mul_lt_mul_of_pos_left _ hC
+  linarith
+
+theorem fluxN_scales_kappa {π κ m kB pvac pvap T : ℝ} (hκ : 0 ≤ κ) :
+    Gen.FU.N_w (kappa := κ) (m_water := m) (np_pi := π) (k_B := kB) (p_vap := pvap) (T_l := T) (p_vac := pvac)
+      (T_v := T) =
+      (2 * κ / (2 - κ)) * Real.sqrt (m / (2 * π * kB)) * ((pvap - pvac) / Real.sqrt T) := by
+  rw [fluxN_eq]
+  have h : m * κ ^ 2 / (2 * π * kB) = κ ^ 2 * (m / (2 * π * kB)) := by ring
+  rw [h, Real.sqrt_mul (sq_nonneg κ), Real.sqrt_sq hκ]
+  ring
+
+theorem fluxN_strictMono_kappa {π m kB pvac pvap T : ℝ} (hπ : 0 < π) (hm : 0 < m) (hk : 0 < kB) (hT : 0 < T)
+    (hp : pvac < pvap) :
+    StrictMonoOn (fun κ => Gen.FU.N_w (kappa := κ) (m_water := m) (np_pi := π) (k_B := kB) (p_vap := pvap)
+      (T_l := T) (p_vac := pvac) (T_v := T)) (Set.Ioc 0 1) := by
+  intro k1 h1 k2 h2 h12
+  simp only []
+  rw [fluxN_scales_kappa h1.1.le, fluxN_scales_kappa h2.1.le]
+  have hs : 0 < Real.sqrt (m / (2 * π * kB)) := Real.sqrt_pos.mpr (by positivity)
+  have hd : 0 < (pvap - pvac) / Real.sqrt T := div_pos (by linarith) (Real.sqrt_pos.mpr hT)
+  have hk' : 2 * k1 / (2 - k1) < 2 * k2 / (2 - k2) := by
+    rw [div_lt_div_iff₀ (by linarith [h1.2]) (by linarith [h2.2])]
+    nlinarith [h1.1, h2.1, h1.2, h2.2]
+  have := mul_lt_mul_of_pos_right hk' hs
+  exact mul_lt_mul_of_pos_right this hd
+
+/-- the run models' flux functions are `Gen.FU.N_w` (over ℝ, restating GenTie/Evap) -/
+theorem run_model_flux (π κ m kB pvac pvap Tl Tv : ℝ) :
+    Snow.Evap.vapourFlux κ m kB pvac pvap Tl Tv =
+        Gen.FU.N_w (kappa := κ) (m_water := m) (np_pi := Snow.Evap.piDouble) (k_B := kB) (p_vap := pvap) (T_l := Tl)
+          (p_vac := pvac) (T_v := Tv) ∧
+    Snow.Evap2D.vapourFlux π κ m kB pvac pvap Tl Tv =
+        Gen.FU.N_w (kappa := κ) (m_water := m) (np_pi := π) (k_B := kB) (p_vap := pvap) (T_l := Tl)
+          (p_vac := pvac) (T_v := Tv) ∧
+    Gen.vapour_flux κ m kB pvac pvap Tl Tv =
+        Gen.FU.N_w (kappa := κ) (m_water := m) (np_pi := Real.pi) (k_B := kB) (p_vap := pvap) (T_l := Tl)
+          (p_vac := pvac) (T_v := Tv) :=
+  ⟨rfl, rfl, flux_gen_eq κ m kB pvac pvap Tl Tv⟩
+
+/-- **real 1D model: evaporation cools the top exactly when the surface pressure is at least the chamber
+pressure** — on `Snow.qEvap` (the function `coolField1D`/`solidStep1D` call), inside the window. -/
+theorem evap_cools_iff_1D (p : SnowIn ℝ) (v : Visf ℝ) (hv : p.visf = some v) (pvap : ℝ → ℝ) (t T : ℝ)
+    (hκ : 0 < v.kappa) (hκ1 : v.kappa ≤ 1) (hm : 0 < v.m_water) (hk : 0 < p.const.k_B) (hH : 0 < v.dHe)
+    (hT : 0 < T)
+    (hw : v.t_vac_start * 3600 < t ∧ t < (v.t_vac_start + v.t_vac_duration) * 3600) :
+    Snow.qEvap p pvap t T ≤ 0 ↔ v.p_vac ≤ pvap T := by
+  have hw' : v.t_vac_start * Num.ofNat' 3600 < t ∧ t < (v.t_vac_start + v.t_vac_duration) * Num.ofNat' 3600 := by
+    simp only [ofNat'_real]; exact_mod_cast hw
+  have hq : Snow.qEvap p pvap t T =
+      (-(Snow.Evap.vapourFlux v.kappa v.m_water p.const.k_B v.p_vac (pvap T) T T)) * v.dHe := by
+    simp only [Snow.qEvap, hv]
+    rw [if_pos hw']
+  rw [hq, (run_model_flux 1 v.kappa v.m_water p.const.k_B v.p_vac (pvap T) T T).1, fluxN_same_T]
+  have hC := fluxCoefPi_pos piDouble_pos hκ hκ1 hm hk
+  have hs : 0 < Real.sqrt T := Real.sqrt_pos.mpr hT
+  have hCs : 0 < fluxCoefPi Snow.Evap.piDouble v.kappa v.m_water p.const.k_B / Real.sqrt T * v.dHe := by positivity
+  have e : -(fluxCoefPi Snow.Evap.piDouble v.kappa v.m_water p.const.k_B * ((pvap T - v.p_vac) / Real.sqrt T)) * v.dHe
+      = -((fluxCoefPi Snow.Evap.piDouble v.kappa v.m_water p.const.k_B / Real.sqrt T * v.dHe) * (pvap T - v.p_vac)) := by
+    field_simp
+  rw [e, neg_nonpos, mul_nonneg_iff_of_pos_left hCs, sub_nonneg]
 
 /-- the hypotheses are satisfiable: the default VISF parameters, a time inside the default
 window (0.75 h … 0.85 h), a temperature in both proved ranges. -/
